@@ -51,7 +51,13 @@ func (c *Ctx) runFrameGrammar(rule string) (frames map[string]int, roots, frags 
 	for fn := range reach {
 		if c.P.InPkg(fn, "wire") && fn.Parent() == nil {
 			// unexported helpers that have callers in S are covered inside each caller's context
-			if !token.IsExported(fn.Name()) && len(c.P.CallSitesOf(fn)) > 0 {
+			syncCallers := 0
+			for _, site := range c.P.CallSitesOf(fn) {
+				if _, isGo := site.(*ssa.Go); !isGo { // a goroutine entry is a root of its own
+					syncCallers++
+				}
+			}
+			if !token.IsExported(fn.Name()) && syncCallers > 0 {
 				continue
 			}
 			fns = append(fns, fn)
